@@ -19,18 +19,21 @@ Definition ensure_id (k : N) (p : pub) : N * pub :=
 Definition del_id (k : N) (p : pub) : pub :=
   mkPub (filter (fun e => negb (fst e =? k)) (ids p)) (next_id p).
 
-(* path of a group: the chain of its ancestors, outermost first, then itself *)
+(* path of a group: the chain of its ancestors, outermost first, then itself; the keys are "field
+   names" (odd, >= 3 for ids >= 1) in the convention of Protocol.v; a stream lives at [1; name] *)
+Definition name_key (n : N) : N := 2 * n + 1.
+
 Fixpoint gpath (fuel : nat) (parents : list (N * N)) (g : N) : list N :=
   match fuel with
-  | O => [g]
+  | O => [name_key g]
   | S f => match agetN g parents with
-           | Some p => gpath f parents p ++ [g]
-           | None => [g]
+           | Some p => gpath f parents p ++ [name_key g]
+           | None => [name_key g]
            end
   end.
 
 Definition group_path (E : env) (g : N) : list N := gpath (length (e_parent E)) (e_parent E) g.
-Definition stream_path (s : N) : list N := [s].
+Definition stream_path (s : N) : list N := [1; name_key s].
 
 Definition group_pend (E : env) (i g : N) : pend := mkPend i (group_path E g) g false 0.
 Definition stream_pend (i s : N) : pend := mkPend i (stream_path s) s true 0.
